@@ -84,18 +84,45 @@ def expected(val):
                                     key=repr)))
     if tag == "units":
         return ("Quantity", expected(val[1]), ("str", val[2].strip()))
+    if tag == "raw":
+        return ("raw", val[2])      # extended vocabulary: no oracle value
     raise ValueError(val)
 
 
 class DocGen:
     """Seeded generator of abstract documents over the core vocabulary."""
 
-    def __init__(self, rng, max_stmts=12, max_depth=3, small=False):
+    def __init__(self, rng, max_stmts=12, max_depth=3, small=False,
+                 extended=False):
         self.rng = rng
         self.max_stmts = max_stmts
         self.max_depth = max_depth
         self.small = small
+        # extended vocabulary: spellings whose meaning is dialect dependent
+        # or that pvl may legitimately refuse.  Only for checks whose oracle
+        # needs no expected tree (C06) or takes pvl itself as the reference
+        # (C09, C16, C20).
+        self.extended = extended
         self.names_pool = []
+
+    EXT_RAW = [
+        (NUM, "+5"), (NUM, "+1.5E+3"), (NUM, "-16#FF#"), (NUM, "16#-FF#"),
+        (NUM, "+2#101#"), (NUM, "3#12#"), (NUM, "1.e5"), (NUM, ".5"),
+        (DATE, "12:00:00+01"), (DATE, "2001-01-01T12:00:00-05:30"),
+        (DATE, "12:30"), (DATE, "2001-01-01T01:02:03"), (DATE, "23:59:60"),
+        (DATE, "2001-366"), (DATE, "2001-01-01T23:59:60.5Z"),
+        (STR, '"line one\n   line two"'), (STR, '"dash-\n     continued"'),
+        (STR, '"dash-\r\n     continued"'), (STR, '"dash-\f  continued"'),
+        (NAME, "abc-\r\n   def"), (NAME, "abc-\n   def"),
+        (STR, "'tab\there'"), (STR, '"caf\u00e9 \u20ac"'),
+        (STR, '"  padded  "'), (NAME, "A:B"), (NAME, "a+b"), (NAME, "N/A"),
+        (NAME, "x.y"), (NAME, "^PTR"), (NAME, "inf"), (NAME, "NaN"),
+        (NAME, "1_000"), (NAME, "*/"), (NAME, "x/*y"), (NAME, "#3"),
+    ]
+
+    def ext_scalar(self):
+        kind, text = self.rng.choice(self.EXT_RAW)
+        return ("raw", kind, text)
 
     def ident(self, maxlen=12):
         r = self.rng
@@ -194,6 +221,11 @@ class DocGen:
 
     def scalar(self, hashable_only=False):
         r = self.rng
+        if self.extended and r.random() < 0.2:
+            v = self.ext_scalar()
+            if r.random() < 0.15:
+                return ("units", v, r.choice(["m", "km/s", "a b", "m**2"]))
+            return v
         x = r.random()
         if x < 0.25:
             return ("ident", self.ident())
@@ -215,6 +247,13 @@ class DocGen:
         if depth < 2 and x < 0.18:
             n = r.choice([0, 1, 2, 3, 5])
             return ("seq", [self.value(depth + 1) for _ in range(n)])
+        if self.extended and depth < 2 and 0.28 <= x < 0.36:
+            # sets holding sequences / sets, units on collections
+            inner = ("set", [self.value(depth + 1) for _ in
+                             range(r.choice([0, 1, 2]))])
+            if r.random() < 0.3:
+                return ("units", inner, "m")
+            return inner
         if depth < 1 and x < 0.28:
             n = r.choice([0, 1, 2, 3])
             elems, seen = [], set()
@@ -240,7 +279,9 @@ class DocGen:
             if depth < self.max_depth and r.random() < (0.25 if not
                                                         self.small else 0.15):
                 kind = r.choice(["group", "object"])
-                body = self.statements(r.choice([1, 1, 2, 3]), depth + 1)
+                body = self.statements(r.choice(
+                    [0, 1, 1, 2, 3] if self.extended else [1, 1, 2, 3]),
+                    depth + 1)
                 out.append(("block", kind, self.name(), body))
             else:
                 out.append(("assign", self.name(), self.value()))
@@ -302,6 +343,8 @@ def value_tokens(val, depth, stmt, role="value"):
         return [Tok(DATE, val[1], role, depth, stmt, expected(val))]
     if tag == "kw":
         return [Tok(KWVAL, val[2], role, depth, stmt, expected(val))]
+    if tag == "raw":
+        return [Tok(val[1], val[2], role, depth, stmt, ("raw", val[2]))]
     if tag in ("seq", "set"):
         o, c = (LP, RP) if tag == "seq" else (LB, RB)
         out = [Tok(o, o, "open", depth, stmt)]
@@ -465,11 +508,12 @@ class Layout:
 
 
 def render_doc(rng, config, stmts=None, max_stmts=12, small=False,
-               always_separate=False):
+               always_separate=False, extended=False):
     """Convenience: generate + style + layout.  Returns
     (stmts, tokens, text, style)."""
     if stmts is None:
-        stmts = DocGen(rng, max_stmts=max_stmts, small=small).document()
+        stmts = DocGen(rng, max_stmts=max_stmts, small=small,
+                       extended=extended).document()
     style = Style(rng, config)
     toks = full_tokens(stmts, style)
     text = Layout(rng, config, always_separate).render(toks)
